@@ -383,6 +383,22 @@ pub fn families() -> Vec<Box<dyn Family>> {
             },
         ),
         family(
+            "asymmetric_blocks",
+            "a block of 10..6000 lines replaced by 10..6000 unrelated lines between common head and tail x lines tokenizer x {Myers, Patience} x {str,[u8]}",
+            false,
+            1,
+            |cfg| if cfg.tiny { 1 } else { cfg.tier.pick(6, 48) },
+            |idx, cfg, out| {
+                let mut rng = Rng::for_case(cfg.seed, "c14.asymmetric_blocks", idx);
+                let (l1, l2) = if cfg.tiny { (5, 1) } else { (*rng.pick(&text_gen::BLOCK_SIZES), *rng.pick(&text_gen::BLOCK_SIZES)) };
+                let (head, tail) = (rng.below(200), rng.below(200));
+                let (a, b) = text_gen::asymmetric_lines_pair(&mut rng, head, tail, l1, l2);
+                out.sample(|| format!("{} head lines, block of {} lines replaced by {} lines, {} tail lines", head, l1, l2, tail));
+                out.nontrivial(&(head, tail, l1, l2));
+                text_case(&a, &b, &[0], &[Algorithm::Myers, Algorithm::Patience], out);
+            },
+        ),
+        family(
             "identify_distinct",
             "IdentifyDistinct::<u8|u16|u32|u64|usize> over seeded random pairs (<= 60 items, alphabets 1..50; u8 only with <= 200 distinct items) with random NON-ZERO sub-range offsets: ids equal <=> items equal within and across sides, ranges preserved, diff through the lookups == diff of the original sub-ranges x 3 algorithms; items repeated only on the new side included",
             false,
